@@ -42,6 +42,14 @@ type c15Case struct {
 	Prev    int `json:"prev"`
 	PrevRaw int `json:"prev_raw"`
 	hasPrev bool
+	// Overwrite: after the reader was built the caller reuses the record value
+	// (1: decodes another record into it, 2: zeroes it); the reader must keep
+	// describing the record it was built from.
+	Overwrite int `json:"overwrite,omitempty"`
+	// Short: if > 0, the judged reply carries a normal completion code and only
+	// Short-1 data bytes (no reading at all / no flags byte): that is not a
+	// reading, whatever an earlier poll returned.
+	Short int `json:"short,omitempty"`
 }
 
 type c15World struct {
@@ -147,12 +155,24 @@ func c15One(cw *c15World, c c15Case) (string, string, string) {
 	if err != nil {
 		return "C15/reader-refused-for-supported-record", fmt.Sprintf("linearisation %d analog format %d: %v", c.Lin, c.Fmt, err), ""
 	}
+	switch c.Overwrite {
+	case 1:
+		other := c15Case{Fmt: (c.Fmt + 1) % 3, Lin: (c.Lin + 1) % 12, M: c.M*7 + 3, B: c.B - 11, K1: c.K1 ^ 5, K2: c.K2 ^ 3}
+		raw := c15Record(other)
+		raw[1], raw[2] = 0x02, 0x55 // another LUN and sensor number
+		fsr.DecodeFromBytes(raw, gopacket.NilDecodeFeedback)
+	case 2:
+		fsr = ipmi.FullSensorRecord{}
+	}
 	if c.Prev >= 0 {
 		cw.w.BMC.Cfg.Sensors = map[byte][]byte{0x37: {byte(c.PrevRaw), byte(c.Prev), 0xFF, 0xFF}}
 		cw.w.T.BeginOp()
 		guard(func() { reader.Read(cw.w.Ctx, cw.sess) })
 	}
 	cw.w.BMC.Cfg.Sensors = map[byte][]byte{0x37: {byte(c.Raw), byte(c.Flags), 0x00}}
+	if c.Short > 0 {
+		cw.w.BMC.Cfg.Sensors = map[byte][]byte{0x37: []byte{byte(c.Raw), byte(c.Flags)}[:c.Short-1]}
+	}
 	before := len(cw.w.T.Log)
 	cw.w.T.BeginOp()
 	var got float64
@@ -169,6 +189,17 @@ func c15One(cw *c15World, c c15Case) (string, string, string) {
 		if rx := cw.w.T.Log[len(cw.w.T.Log)-1].Rx; rx == nil || rx.Msg == nil || rx.Msg.LUN1 != 1 || len(rx.Msg.Data) != 1 || rx.Msg.Data[0] != 0x37 || rx.Msg.NetFn != 0x04 || rx.Msg.Cmd != 0x2d {
 			return "C15/wrong-sensor-queried", fmt.Sprintf("the reading was requested with %+v, the record says sensor 0x37 on LUN 1", rx.Msg), ""
 		}
+	}
+	if c.Short > 0 {
+		if err == nil {
+			return "C15/value-from-a-reply-without-reading", fmt.Sprintf("the BMC answered with a normal code and %d data bytes (previous poll: raw %#02x flags %#02x): Read returned %v with a nil error", c.Short-1, c.PrevRaw, c.Prev, got), ""
+		}
+		if errors.Is(err, bmc.ErrSensorReadingUnavailable) || errors.Is(err, bmc.ErrSensorScanningDisabled) {
+			if c.Short-1 < 2 {
+				return "C15/flags", fmt.Sprintf("the BMC sent %d data bytes, hence no flags byte (previous poll: flags %#02x), yet Read reported %v", c.Short-1, c.Prev, err), ""
+			}
+		}
+		return "", "", "error-for-reply-without-reading"
 	}
 	unavailable, scanningOff := c.Flags&0x20 != 0, c.Flags&0x40 == 0
 	if unavailable || scanningOff {
@@ -374,6 +405,31 @@ func runC15(r *rep.R) {
 			for _, lin := range []int{0, 8} {
 				for _, raw := range []int{0, 0x7F, 0x80, 0xFF} {
 					do(c15Case{Raw: raw, Fmt: 2, Lin: lin, M: 3, B: -5, K1: 1, K2: -1, Flags: fl, Prev: prev, PrevRaw: raw ^ 0xFF, hasPrev: true})
+				}
+			}
+		}
+	}
+	// (g) the record value is reused by the caller after the reader was built
+	for _, ow := range []int{1, 2} {
+		for f := 0; f < 3; f++ {
+			for lin := 0; lin < 12; lin++ {
+				for _, raw := range []int{0, 1, 0x7F, 0x80, 0xFE, 0xFF} {
+					for _, mb := range [][4]int{{1, 0, 0, 0}, {100, -200, 2, -3}, {-512, 511, 7, 7}, {511, -512, -8, -8}, {3, 7, -1, 1}} {
+						do(c15Case{Raw: raw, Fmt: f, Lin: lin, M: mb[0], B: mb[1], K1: mb[2], K2: mb[3], Flags: 0xC0, Overwrite: ow})
+					}
+				}
+			}
+		}
+	}
+	// (h) a reply with a normal code but no reading in it, on a fresh reader and
+	// after every kind of earlier poll
+	for short := 1; short <= 3; short++ {
+		for _, prev := range []int{-1, 0x00, 0x20, 0x40, 0x60, 0xC0, 0xE0} {
+			for _, lin := range []int{0, 8} {
+				for _, raw := range []int{0, 0x2A, 0xFF} {
+					for _, fl := range []int{0x00, 0x20, 0xC0} {
+						do(c15Case{Raw: raw, Fmt: 0, Lin: lin, M: 2, B: 1, K1: 0, K2: 0, Flags: fl, Prev: prev, PrevRaw: 0x55, hasPrev: true, Short: short})
+					}
 				}
 			}
 		}
